@@ -1,5 +1,6 @@
 import Fpdec.Kernels.Cmp
 import Fpdec.Kernels.Ratio
+import Fpdec.Kernels.Rkyv
 import Fpdec.Lemmas.RatioL
 import Fpdec.Props.C09_Sites
 
@@ -70,5 +71,17 @@ theorem kernel_as_integer_ratio_spec (prof : Profile) (d : Dec) (hd : Dom d) :
     Gen.K.decimal_as_integer_ratio prof d = .ok (Spec.ratio d.coeff d.nfrac) := by
   rw [Kernels.decimal_as_integer_ratio_eq prof d ⟨hd.1, hd.2.1⟩]
   exact (as_integer_ratio_spec prof d hd).1
+
+/-- `impl Hash for Decimal` as translated on this run (read as "what is fed to the Hasher"; a pair of `i128` feeds its two
+    components with `write_i128`, `Rt.hashFeedPair`) is the model's `hashFeed` -/
+theorem kernel_decimal_hash (prof : Profile) (d : Dec) (hc : I128_MIN < d.coeff ∧ d.coeff ≤ I128_MAX) :
+    Gen.K.decimal_hash prof d = hashFeed prof d := Kernels.decimal_hash_eq prof d hc
+/-- end to end: the translated `hash` of two equal values feeds the same words to any Hasher — those of the reduced pair -/
+theorem kernel_hash_spec (prof : Profile) (x y : Dec) (hx : Dom x) (hy : Dom y)
+    (h : Spec.cmp x.coeff x.nfrac y.coeff y.nfrac = .eq) :
+    Gen.K.decimal_hash prof x = Gen.K.decimal_hash prof y ∧
+    Gen.K.decimal_hash prof x = .ok [(Spec.ratio x.coeff x.nfrac).1, (Spec.ratio x.coeff x.nfrac).2] := by
+  rw [Kernels.decimal_hash_eq prof x ⟨hx.1, hx.2.1⟩, Kernels.decimal_hash_eq prof y ⟨hy.1, hy.2.1⟩]
+  exact hash_congr prof x y hx hy h
 
 end Fpdec.Props.C09
